@@ -156,6 +156,17 @@ def expected_value(dt, v):
 
 
 def replay_g(e):
+    d = judge(e)
+    if d is None:
+        # a datatype is a function of its argument: the same converter object, asked again, gives the same answer
+        d = judge(e)
+        if d is not None:
+            d["clause"] = "asked-again: " + d["clause"]
+            d["class"]["again"] = True
+    return d
+
+
+def judge(e):
     dt = e["dt"]
     text = dec_line(e["s"])
     want = e["r"]
